@@ -182,6 +182,14 @@ func checkCmd(argv []string) int {
 	SolveAll(func(*FuncResult) string { return prelude }, frs, func(o *Obligation) bool { return picked[o] }, timeout, runtime.NumCPU())
 	solveS := time.Since(t0).Seconds() - loadS - genS
 
+	// call-graph frame conditions (forbids clauses)
+	forb := P.ForbidsObligations(hasTag)
+	if len(forb) > 0 {
+		frs = append(frs, &FuncResult{VC: NewVC(P.reg), Obls: forb})
+		for _, o := range forb {
+			picked[o] = true
+		}
+	}
 	// expected / known findings
 	exp := &Expected{Property: *prop, Obligations: map[string]string{}}
 	expPath := filepath.Join(*verif, "expected", *prop+".json")
